@@ -4,9 +4,9 @@ Every truncation offset 0..size of files (reference assembly, shown byte-identic
 for compression levels {0,1,6,9} x container sizes {32,100,default} (objects span containers) x final / initial
 (all-zero statistics) header x static priority orders of the three threads; each prefix is opened, read to the end and
 closed through File under the deterministic scheduler in the ASan+UBSan build.  Oracle from the container layout:
-delivered objects are a prefix of the original list, at least those whose bytes including padding lie in completely
-stored containers (container padding included), at most those whose declared size lies in completely stored containers
-(padding ambiguity resolved permissively), each unmodified; then null; close() returns; open() throws the library's
+delivered objects are exactly those whose declared size lies in completely stored containers (a container is completely
+stored when its objectSize bytes are; the alignment bytes behind a container or an object belong to neither), each
+unmodified and in order; then null; close() returns; open() throws the library's
 exception only while the 144-byte header is incomplete; the count is monotone in the offset."""
 import time
 
